@@ -130,7 +130,7 @@ impl Rng {
             return;
         }
         let p: [u8; 2] = match type_id {
-            9 => *self.pick(&[[0x17, 0x00], [0x17, 0x01], [0x27, 0x01], [0x17, 0x02], [0x12, 0x00]]),
+            9 => *self.pick(&[[0x17, 0x00], [0x17, 0x01], [0x27, 0x01], [0x17, 0x02], [0x12, 0x00], [0x32, 0x00], [0x22, 0x00], [0x37, 0x01], [0x47, 0x01], [0x57, 0x00], [0x1C, 0x00], [0x2C, 0x01]]),
             8 => *self.pick(&[[0xAF, 0x00], [0xAF, 0x01], [0x2F, 0x00], [0xAE, 0x00]]),
             _ => *self.pick(&[[0x17, 0x00], [0xAF, 0x00], [0x02, 0x00]]),
         };
